@@ -2,7 +2,7 @@ import ExaModel.Model.Reload
 import ExaModel.Lemmas.RibDown
 set_option linter.unusedSimpArgs false
 /-! Closed forms of what the reload machinery does to the Adj-RIB-Out cache (M-Rib level):
-    parse-time insertion, `replace_reload`, `replace_restart`.  All for adj-rib-out kept. -/
+    the insertion of the configured routes by `attach_ribs()` (commit stage), `replace_reload`, `replace_restart`.  All for adj-rib-out kept. -/
 namespace Exa.Reload
 open Exa Exa.Rib
 
@@ -123,9 +123,9 @@ theorem delRoutes_cacheView (rs : List Route) (rib : Rib) (hc : rib.cacheOn = tr
     · have hm' : ¬ m = r.nlri := fun e => hm e.symm
       simp [hm, hm']
 
-/-! ### parse-time insertion -/
+/-! ### insertion of the configured routes (`attach_ribs`, at the commit) -/
 
-/-- The configured route is announced at parse time (it is not parked by a `withdraw` watchdog). -/
+/-- The configured route is announced by the insertion (it is not parked by a `withdraw` watchdog). -/
 def CRoute.live (cr : CRoute) : Bool :=
   match cr.wd with
   | some (_, true) => false
@@ -409,7 +409,7 @@ theorem hasNlri_values {l : AList Nat Route} (h : WFMap l) (m : Nat) :
       rw [this] at hl; cases hl
 
 /-- **`replace_reload` on a RIB that already holds the new configuration** (that is what the
-    parse-time insertion left): every prefix of the new configuration stays at the last route
+    insertion by `attach_ribs()` left): every prefix of the new configuration stays at the last route
     listed for it, a prefix of the previous configuration that is not listed any more is removed,
     everything else is untouched. -/
 theorem replaceReload_cache (rib : Rib) (prev new : List Route) (hc : rib.cacheOn = true)
